@@ -344,6 +344,70 @@ def _remap_by_name_lists(run, P, f, defs, isel):
     run.incomplete("F-TABLE/subgrid-remap", f"{f.key}:node-remap", where(f, remap_node), "the renumbering itself (fill value passthrough, attrs) is not re-checked for the name-list idiom")
 
 
+def _fill_image(fn, defs, data, nodes, names_used):
+    """What the node renumbering does to INT_FILL_VALUE: ("ok" | "bad" | "unknown", reason).
+    Understood idioms:
+      D[INT_FILL_VALUE] = INT_FILL_VALUE                      for a dict D used by the map
+      np.where(x == FILL, FILL, <renumbered>)                 (or  x != FILL  with the arms exchanged)
+      L[np.where(x == FILL, k, x)]                            lookup array: slot k must hold FILL and belong to no node:
+                                                              L = np.full(n + 1, FILL) with k in (-1, n)  -> ok;   L = np.full(n, FILL), k = -1 -> the LAST NODE's slot -> bad
+    """
+    for s in iter_stmts(fn.body):
+        if isinstance(s, ast.Assign) and isinstance(s.targets[0], ast.Subscript) and S.is_fill(s.targets[0].slice) and S.is_fill(s.value) and isinstance(s.targets[0].value, ast.Name) and s.targets[0].value.id in names_used:
+            return "ok", "dict entry fill -> fill"
+
+    def single(e):
+        seen = 0
+        while isinstance(e, ast.Name) and seen < 6:
+            ds_ = defs.defs.get(e.id, [])
+            if len(ds_) != 1 or ds_[0][1] is not None or ds_[0][2]:
+                return e
+            e = ds_[0][0]
+            seen += 1
+        return e
+
+    def is_where(n):
+        return isinstance(n, ast.Call) and (dotted(n.func) or [""])[-1] == "where" and len(n.args) == 3 and S.fill_test(n.args[0]) is not None
+
+    exprs = [data] + list(nodes)
+    index_wheres, lookups = set(), []
+    for e in exprs:
+        for n in ast.walk(e):
+            if isinstance(n, ast.Subscript):
+                sl = single(n.slice)
+                if is_where(sl):
+                    index_wheres.add(id(sl))
+                    lookups.append((n, sl))
+    # a where that is the result (not an index): the arm taken for padding must be the fill value
+    for e in exprs:
+        for n in ast.walk(e):
+            if is_where(n) and id(n) not in index_wheres:
+                kind, _x = S.fill_test(n.args[0])
+                arm = n.args[1] if kind == "eq" else n.args[2]
+                if S.is_fill(single(arm)):
+                    return "ok", "np.where puts the fill value back"
+    for sub, wh in lookups:
+        kind, _x = S.fill_test(wh.args[0])
+        k = single(wh.args[1] if kind == "eq" else wh.args[2])
+        kv = k.value if isinstance(k, ast.Constant) and isinstance(k.value, int) else -k.operand.value if isinstance(k, ast.UnaryOp) and isinstance(k.op, ast.USub) and isinstance(k.operand, ast.Constant) else None
+        L = single(sub.value)
+        if not (isinstance(L, ast.Call) and (dotted(L.func) or [""])[-1] == "full" and len(L.args) >= 2 and S.is_fill(single(L.args[1]))):
+            if S.is_fill(k):
+                return "bad", f"padding is looked up as `{norm(sub)[:70]}` with INT_FILL_VALUE itself as the position: an index error or an arbitrary node"
+            return "unknown", f"padding is looked up through `{norm(sub)[:70]}`; the lookup array is not built by np.full(size, INT_FILL_VALUE): what its slot for padding holds is not decided"
+        size = single(L.args[0])
+        extra = isinstance(size, ast.BinOp) and isinstance(size.op, ast.Add) and any(isinstance(x, ast.Constant) and isinstance(x.value, int) and x.value >= 1 for x in (size.left, size.right))
+        if kv == -1 and extra:
+            return "ok", "lookup array with one extra slot holding the fill value"
+        if kv == -1 and not extra:
+            return "bad", (f"padding is looked up through the LAST slot of the lookup array `{norm(L)[:60]}`, which has exactly one slot per source node: "
+                           "when the last node of the source grid belongs to the subset, every padding entry becomes that node's new index")
+        if kv is not None and kv >= 0:
+            return "bad", f"padding is looked up through slot {kv} of the lookup array, which is the slot of source node {kv}: padding becomes that node's new index (or stays fill only when the node is not selected)"
+        return "unknown", f"padding is looked up through slot `{norm(k)}` of `{norm(L)[:60]}`: not decided"
+    return "bad", "the node map does not send INT_FILL_VALUE to INT_FILL_VALUE: padding slots of short faces become a real node of the subset"
+
+
 def _remap(run, P, f, defs, isel):
     fn = f.node
     loop = None
@@ -465,17 +529,12 @@ def _remap(run, P, f, defs, isel):
     probs = []
     if node_arr not in names_used:
         probs.append(f"the new node numbering is not derived from {node_arr}")
-    # fill passthrough: mapping[INT_FILL_VALUE] = INT_FILL_VALUE  or a where/mask on the fill value
-    fill_ok = False
-    for s in iter_stmts(fn.body):
-        if isinstance(s, ast.Assign) and isinstance(s.targets[0], ast.Subscript) and S.is_fill(s.targets[0].slice) and S.is_fill(s.value) and isinstance(s.targets[0].value, ast.Name) and s.targets[0].value.id in names_used:
-            fill_ok = True
-    for e in nodes:
-        for n in ast.walk(e):
-            if isinstance(n, ast.Call) and (dotted(n.func) or [""])[-1] == "where" and n.args and S.fill_test(n.args[0]):
-                fill_ok = True
-    if not fill_ok:
-        probs.append("the node map does not send INT_FILL_VALUE to INT_FILL_VALUE: padding slots of short faces become a real node of the subset")
+    # fill passthrough: mapping[INT_FILL_VALUE] = INT_FILL_VALUE, a where(...) that puts the fill value back, or a lookup array whose slot for padding holds the fill value
+    verdict_, why_ = _fill_image(fn, defs, data, nodes, names_used)
+    if verdict_ == "bad":
+        probs.append(why_)
+    elif verdict_ == "unknown":
+        run.incomplete("F-TABLE/subgrid-remap", f"{f.key}:node-remap:fill-image", where(f, node), why_)
     attrs = next((k.value for k in val.keywords if k.arg == "attrs"), None) if isinstance(val, ast.Call) else None
     if attrs is not None:
         wholesale = isinstance(attrs, ast.Attribute) and attrs.attr == "attrs"
